@@ -470,7 +470,7 @@ func check(c mergeCase) (fl *harness.Failure, oc outcome) {
 		}
 	}
 	// last (it edits the input documents, and the merged document may hold their nodes):
-	if c.Hist > 0 && !c.ViaQuery {
+	if c.Hist > 0 && !c.ViaQuery && !c.Left.IsHuge() && !c.Right.IsHuge() {
 		if f := mergeAfterHistory(ld, rd, c); f != nil {
 			return f, oc
 		}
@@ -526,7 +526,7 @@ func renumber(g *gen.GraphBP, pp, fp string) {
 
 func genCase(rt *rapid.T) mergeCase {
 	base := rapid.SampledFrom([]int{1850, 1900}).Draw(rt, "base")
-	o := gen.GraphOpts{MaxPeople: 7, MaxFamilies: 3, YearLo: base, YearHi: base + 40, UIDs: rapid.Bool().Draw(rt, "uids"), Big: 60, BigLo: 20, BigHi: 45}
+	o := gen.GraphOpts{MaxPeople: 7, MaxFamilies: 3, YearLo: base, YearHi: base + 40, UIDs: rapid.Bool().Draw(rt, "uids"), Big: 60, BigLo: 20, BigHi: 45, Huge: 500, HugeLo: 258, HugeHi: 330}
 	c := mergeCase{Left: gen.Graph(o).Draw(rt, "left")}
 	c.Kind = rapid.SampledFrom([]string{"same-pointers", "same-pointers", "renumbered", "disjoint", "clashing", "empty"}).Draw(rt, "kind")
 	switch c.Kind {
@@ -601,7 +601,7 @@ func genCase(rt *rapid.T) mergeCase {
 
 func TestCheckMerge(t *testing.T) {
 	s := harness.NewSub("document-merge-accounting-and-references",
-		"pairs of referentially closed family graphs (<= 7 people, <= 3 families; one pair in 60 with 20..45 people per side): a base and an independently edited copy (people dropped/added/renamed, facts changed) with the same pointers or completely renumbered, disjoint documents, documents whose pointers clash, an empty side; every person carries a unique marker and two unique fact leaves; thresholds default/0.95/0.3; Jobs 0/1/2/4/16 (the merge matches people with the same machinery as Compare); library call and the query function MergeDocumentsAndIndividuals. For a quarter of the library cases the two documents are afterwards compared, read, edited through the public API and merged again (sequentially): the text must be that of the same two texts decoded from nothing. Oracle: output decodes, every marker exactly once, no two people of one side merged, merged people hold all unique facts and every other line of both originals (an equal node under an equal parent chain), inputs unchanged; every HUSB/WIFE/CHIL of the output resolves to an individual carrying the marker of a person the inputs refer to in that family and role, every input reference is still there, FAMS/FAMC resolve to families; non-trivial = a merged pair and an unmatched person on each side")
+		"pairs of referentially closed family graphs (<= 7 people, <= 3 families; one pair in 60 with 20..45 people per side, one in 500 with 258..330): a base and an independently edited copy (people dropped/added/renamed, facts changed) with the same pointers or completely renumbered, disjoint documents, documents whose pointers clash, an empty side; every person carries a unique marker and two unique fact leaves; thresholds default/0.95/0.3; Jobs 0/1/2/4/16 (the merge matches people with the same machinery as Compare); library call and the query function MergeDocumentsAndIndividuals. For a quarter of the library cases the two documents are afterwards compared, read, edited through the public API and merged again (sequentially): the text must be that of the same two texts decoded from nothing. Oracle: output decodes, every marker exactly once, no two people of one side merged, merged people hold all unique facts and every other line of both originals (an equal node under an equal parent chain), inputs unchanged; every HUSB/WIFE/CHIL of the output resolves to an individual carrying the marker of a person the inputs refer to in that family and role, every input reference is still there, FAMS/FAMC resolve to families; non-trivial = a merged pair and an unmatched person on each side")
 	s.Rapid(t, harness.Share(harness.Pick(30000, 600000)), 100, func(rt *rapid.T) {
 		c := genCase(rt)
 		fl, oc := check(c)
@@ -619,6 +619,9 @@ func TestCheckMerge(t *testing.T) {
 		isBig := c.Left.IsBig() || c.Right.IsBig()
 		if isBig {
 			cls = append(cls, "big:>=20-people")
+		}
+		if c.Left.IsHuge() || c.Right.IsHuge() {
+			cls = append(cls, "huge:>256-people")
 		}
 		s.Eval(harness.JSON(c), nt, cls...)
 		if nt && !isBig {
